@@ -187,9 +187,9 @@ def line_tags(text):
 # running verus
 # -------------------------------------------------------------------------------------------------
 
-def run_verus(path, modules, rlimit=None, seed=None, extra=None, timeout=3000):
+def run_verus(path, modules, rlimit=None, seed=None, extra=None, timeout=3000, threads=16):
     cmd = ['verus', path, '--output-json', '--time', '--triggers-mode', 'silent', '--multiple-errors', '24',
-           '--num-threads', '16', '-V', 'spinoff-all']
+           '--num-threads', str(threads), '-V', 'spinoff-all']
     for m in modules:
         cmd += ['--verify-module', m]
     if rlimit:
@@ -237,11 +237,32 @@ def breakdown(vjson):
 # classification
 # -------------------------------------------------------------------------------------------------
 
+def hint_block_tags(text, linemap):
+    """tags of proof-hint blocks from hint_tags.json (tools/hint_deps.py): every property with an obligation that
+    stops verifying when the block is removed -- a failing hint may mask exactly those"""
+    p = os.path.join(VERIF, 'hint_tags.json')
+    if not os.path.exists(p):
+        return {}
+    import hint_deps
+    db = json.load(open(p))
+    lines = text.split('\n')
+    res = {}
+    for b in hint_deps.find_blocks(lines, linemap):
+        key = hint_deps.block_key(lines, linemap, b)
+        if key in db and db[key]['deps']:
+            for k in range(b[0], b[1] + 1):
+                res[k] = db[key]['deps']
+    return res
+
+
 def classify(res, text, linemap, units):
     """-> (failures, undecided_reasons)
     failure = {function, message, kind, line, clause, tags, rendered}"""
     spans = function_spans(text)
     tags = line_tags(text)
+    for k, v in hint_block_tags(text, linemap).items():
+        tags.setdefault(k, [])
+        tags[k] = tags[k] + [x for x in v if x not in tags[k]]
     lines = text.split('\n')
     failures = []
     undecided = []
@@ -419,41 +440,56 @@ def decide(pid, cfg, tier, seed, units, work, ev):
     cmds = []
     solver_ms = 0
     modules_info = None
-    for fs in feature_sets:
+    def one(fs):
         text, linemap, info = mirror.build(fs)
-        if modules_info is None:
-            modules_info = info['modules']
-            rewrites = info['rewrites']
-            trusted = scan_trusted(text, linemap)
         sub = os.path.join(work, 'fs_' + ('_'.join(fs) or 'none'))
         os.makedirs(sub)
         mpath = os.path.join(sub, 'mirror.rs')
         open(mpath, 'w').write(text)
         mods = [m for m in cfg['modules'] if m != 'history' or 'history' in fs]
-        if fs != mirror.ALL_FEATURES and not cfg.get('all_feature_sets'):
-            pass
-        res = run_verus(mpath, ['verif_specs'] + mods)
-        cmds.append(res['cmd'].replace(sub, '<scratch>'))
+        # the prelude does not depend on the feature set (only three spec constants do): verified with the default set
+        pre = ['verif_specs'] if fs == mirror.ALL_FEATURES else []
+        res = run_verus(mpath, pre + mods, threads=16 if len(feature_sets) == 1 else 6)
         fails, undec = classify(res, text, linemap, units)
         for f in fails:
             f['features'] = list(fs)
+        extra_undec = []
+        if tier == 'thorough' and fs == mirror.ALL_FEATURES:
+            # proof-stability reruns with different solver seeds: a flip is reported as unstable, not as a violation
+            for k in range(1, 3):
+                r2 = run_verus(mpath, pre + mods, seed=seed * 7 + k)
+                f2, u2 = classify(r2, text, linemap, units)
+                base = sorted((x['function'], x['message'], x['clause']) for x in fails)
+                other = sorted((x['function'], x['message'], x['clause']) for x in f2)
+                if base != other:
+                    extra_undec.append('unstable proof: result differs under smt.random_seed=%d' % (seed * 7 + k))
+        return fs, text, linemap, info, res, fails, undec + extra_undec, sub
+
+    import concurrent.futures
+    with concurrent.futures.ThreadPoolExecutor(max_workers=3 if len(feature_sets) > 1 else 1) as ex:
+        outs = list(ex.map(one, feature_sets))
+    for (fs, text, linemap, info, res, fails, undec, sub) in outs:
+        if modules_info is None:
+            modules_info = info['modules']
+            rewrites = info['rewrites']
+            trusted = scan_trusted(text, linemap)
+        cmds.append(res['cmd'].replace(sub, '<scratch>'))
         all_fail += fails
         all_undec += undec
         for r in breakdown(res['json']):
             r['features'] = ','.join(fs)
             fn_rows.append(r)
             solver_ms += r['time_ms']
-        if tier == 'thorough' and fs == mirror.ALL_FEATURES:
-            # proof-stability reruns with different solver seeds: a flip is reported as unstable, not as a violation
-            for k in range(1, 3):
-                r2 = run_verus(mpath, ['verif_specs'] + mods, seed=seed * 7 + k)
-                f2, u2 = classify(r2, text, linemap, units)
-                base = sorted((x['function'], x['message'], x['clause']) for x in fails)
-                other = sorted((x['function'], x['message'], x['clause']) for x in f2)
-                if base != other:
-                    all_undec.append('unstable proof: result differs under smt.random_seed=%d' % (seed * 7 + k))
     # all source functions must be known to units.json
     # (functions of mirrored modules that are not listed -> undecided: new code not under contract)
+    if cfg.get('all_feature_sets'):
+        # C16: a clause that holds with all features on but fails with some feature off (or a clause tagged C16)
+        full = ','.join(mirror.ALL_FEATURES)
+        base = set((f['function'], f['clause'], f['message']) for f in all_fail if ','.join(f['features']) == full)
+        for f in all_fail:
+            if ','.join(f['features']) != full and (f['function'], f['clause'], f['message']) not in base and f['tags']:
+                if pid not in f['tags']:
+                    f['tags'] = sorted(set(f['tags']) | {pid})
     mine = [f for f in all_fail if pid in f['tags']]
     text, linemap, info = mirror.build(mirror.ALL_FEATURES)
     for f in function_spans(text):
@@ -471,7 +507,7 @@ def decide(pid, cfg, tier, seed, units, work, ev):
     mine_rows = []
     for r in fn_rows:
         n = short(r['function'])
-        if n.startswith('verif_specs') or pid in units.get(n, {}).get('props', []) or n not in units:
+        if n.startswith('verif_specs') or pid in units.get(n, {}).get('props', []) or n not in units or cfg.get('all_feature_sets'):
             r = dict(r)
             r['discharged_for_property'] = r['success'] or (n not in failed_fns)
             mine_rows.append(r)
